@@ -114,7 +114,7 @@ func TestVerifC14Model(t *testing.T) {
 		opts, chunk := c14Opts(rng)
 		return c14CaseCfg{family: "model", nScopes: 1 + rng.IntN(4), phases: 2 + rng.IntN(4), opsPerPh: 6 + rng.IntN(22),
 			fault: rng.IntN(3) == 0, reopenProb: 55, opts: opts, chunk: chunk, probeEvery: 3}
-	}}, r.N(500, 8000))
+	}}, r.N(280, 2500))
 }
 
 // TestVerifC14Concurrent: one goroutine per scope writing concurrently through
@@ -133,7 +133,7 @@ func TestVerifC14Concurrent(t *testing.T) {
 		}
 		return c14CaseCfg{family: "concurrent", nScopes: 2 + rng.IntN(3), phases: 2 + rng.IntN(3), opsPerPh: 8 + rng.IntN(16),
 			concurrent: true, fault: rng.IntN(2) == 0, reopenProb: 60, opts: opts, chunk: chunk, probeEvery: 3}
-	}}, r.N(70, 1200))
+	}}, r.N(40, 350))
 }
 
 // TestVerifC14Crash: Pebble runs on vfs.CrashableMem through the verif FS seam;
@@ -158,5 +158,22 @@ func TestVerifC14Crash(t *testing.T) {
 		}
 		return c14CaseCfg{family: "crash", nScopes: n, phases: 2 + rng.IntN(3), opsPerPh: 6 + rng.IntN(16),
 			concurrent: conc, crash: true, fault: rng.IntN(4) == 0, reopenProb: 40, opts: opts, chunk: chunk, probeEvery: 5}
-	}}, r.N(160, 3000))
+	}}, r.N(100, 1000))
+}
+
+// TestVerifC14StaleSuffix: the one Raft-valid call shape kept apart from the
+// other units: a leader snapshot (index k, term t) installed by a follower whose
+// log still holds an uncommitted suffix beyond k from an older term
+// (commit < k < last, term(k) != t). etcd raft drops the whole log in that
+// restore (raftLog.restore / MemoryStorage.ApplySnapshot), and the Ready that
+// multiraft persists carries only HardState + Snapshot.
+func TestVerifC14StaleSuffix(t *testing.T) {
+	r := verifkit.Start(t, "C14", "stalesuffix")
+	defer r.Finish()
+	r.SetRule(c14Rule + " This unit: histories that additionally contain snapshot installs strictly inside an uncommitted stale suffix.")
+	c14RunFamily(t, r, c14Family{id: "stalesuffix", stream: 4, workers: 4, mk: func(rng *rand.Rand, i int) c14CaseCfg {
+		opts, chunk := c14Opts(rng)
+		return c14CaseCfg{family: "stalesuffix", nScopes: 1 + rng.IntN(2), phases: 2 + rng.IntN(3), opsPerPh: 6 + rng.IntN(12),
+			stale: true, reopenProb: 60, opts: opts, chunk: chunk, probeEvery: 3}
+	}}, r.N(12, 60))
 }
